@@ -307,7 +307,9 @@ Lemma calibrate_inv : forall es np cgs c,
     ref_event es (nth idx gs ""%string) (if tree then 4%nat else 1%nat) = Ok (r, y) /\
     c = mkcal tree idx
           (map (fun p => shift_pos tree d (if (2 <? np)%nat then rows0 else [recv]) (pos_of tree np p)) (seq 0 np))
-          (e_ts r + e_dur r - y)%Q.
+          (e_ts r + e_dur r - y -
+           nth 0 (map (fun p => shift_pos tree d (if (2 <? np)%nat then rows0 else [recv]) (pos_of tree np p))
+                      (seq 0 np)) 0)%Q.
 Proof.
   intros es np cgs c H. unfold calibrate in H. fold (rows_of es (groups_used cgs) (tree_of es (groups_used cgs)) np) in H.
   apply bind_ok in H. destruct H as [rows0 [Hr H]].
@@ -667,33 +669,44 @@ Section Epoch.
     ref_event es (nth idx gs ""%string) (if tree then 4%nat else 1%nat) = Ok (r, y) ->
     calibrate es np cgs = Ok (mkcal tree idx
           (map (fun p => shift_pos tree d (if (2 <? np)%nat then rows0 else [recv]) (pos_of tree np p)) (seq 0 np))
-          (e_ts r + e_dur r - y)%Q).
+          (e_ts r + e_dur r - y -
+           nth 0 (map (fun p => shift_pos tree d (if (2 <? np)%nat then rows0 else [recv]) (pos_of tree np p))
+                      (seq 0 np)) 0)%Q).
   Proof.
     intros es np cgs rows0 send recv idx d r y gs tree Hr Hs Hv Ha Hre.
     unfold calibrate. fold gs. fold tree. fold (rows_of es gs tree np).
     rewrite Hr. simpl. rewrite Hs. simpl. rewrite Hv. simpl. rewrite Ha. rewrite Hre. reflexivity.
   Qed.
 
-  Definition calib_rel (np : nat) (c1 c2 : calib) : Prop :=
+  (* K: the offset of the rank that stays unshifted (P_map[0] = 0 in the tree branch, P_map[1] in the chain branch) *)
+  Definition calib_rel (np : nat) (K : Q) (c1 c2 : calib) : Prop :=
     List.length (c_shifts c1) = np /\ List.length (c_shifts c2) = np /\
-    (forall p, (p < np)%nat -> (nth p (c_shifts c2) 0 == nth p (c_shifts c1) 0 - c (Z.of_nat p) + c 0)%Q) /\
-    (c_off c2 == c_off c1 - c 0)%Q.
+    (forall p, (p < np)%nat -> (nth p (c_shifts c2) 0 == nth p (c_shifts c1) 0 - c (Z.of_nat p) + K)%Q) /\
+    (c_off c2 == c_off c1 - K)%Q.
 
   Lemma hd_nth0 : forall (l : list Q), hd 0%Q l = nth 0 l 0%Q.
   Proof. intros [|]; reflexivity. Qed.
 
+  Lemma pm_pos : forall tree np p, (p < np)%nat -> pm tree np (pos_of tree np p) = Z.of_nat p.
+  Proof. intros [|] np p H; unfold pm, pos_of; [reflexivity|f_equal; lia]. Qed.
+
+  Lemma pos_lt : forall tree np p, (p < np)%nat -> (pos_of tree np p < np)%nat.
+  Proof. intros [|] np p H; unfold pos_of; lia. Qed.
+
+  (* the counter offset of the rank that the calibration leaves unshifted *)
+  Definition Kof (tree : bool) (np : nat) : Q := if tree then c (pm tree np 0) else c (pm tree np 1).
+
   Lemma calibrate_bump : forall es np cgs c1,
     cgs <> [] -> (2 <= np)%nat ->
-    calibrate es np cgs = Ok c1 -> c_tree c1 = true ->
-    exists c2, calibrate (map (bump c) es) np cgs = Ok c2 /\ calib_rel np c1 c2.
+    calibrate es np cgs = Ok c1 ->
+    exists c2, calibrate (map (bump c) es) np cgs = Ok c2 /\ calib_rel np (Kof (c_tree c1) np) c1 c2.
   Proof.
-    intros es np cgs c1 Hcg Hnp H Ht.
+    intros es np cgs c1 Hcg Hnp H.
     apply calibrate_inv in H.
     destruct H as [rows0 [send [recv [idx [d [r [y [Hr [Hs [Hv [Hm [Hre Hc]]]]]]]]]]]].
-    assert (Htree : tree_of es (groups_used cgs) = true) by (subst c1; exact Ht).
     set (gs := groups_used cgs) in *.
+    set (tree := tree_of es gs) in *.
     assert (Hgs : gs <> []) by (apply groups_used_nonempty; exact Hcg).
-    rewrite Htree in *. unfold pm in Hs, Hv. simpl in Hs, Hv.
     set (es2 := map (bump c) es).
     (* the pieces on the bumped stream *)
     destruct (ends_bump c _ _ _ _ _ Hs) as [send' [Hs' Rs]].
@@ -702,14 +715,15 @@ Section Epoch.
     assert (Hdiff : map2 Qminus recv send <> []).
     { intros E. apply (f_equal (@List.length Q)) in E. rewrite map2_length in E by congruence.
       simpl in E. destruct gs; [congruence|]. simpl in *. lia. }
-    destruct (argmin_shift (c 1 - c 0)%Q _ _ _ _ (map2_minus_shift _ _ _ _ _ _ Rv Rs) Hdiff Hm) as [d' [Hm' Rd]].
+    destruct (argmin_shift (c (pm tree np 1) - c (pm tree np 0))%Q _ _ _ _
+                (map2_minus_shift _ _ _ _ _ _ Rv Rs) Hdiff Hm) as [d' [Hm' Rd]].
     pose proof (ref_event_bump _ _ _ _ _ Hre) as Hre'. fold es2 in Hre'.
-    assert (Hrows : exists rows0', rows_of es2 gs true np = Ok rows0' /\
+    assert (Hrows : exists rows0', rows_of es2 gs tree np = Ok rows0' /\
               ((2 <? np)%nat = true -> forall j, (j < np - 1)%nat ->
-                 (hd 0 (nth j rows0' []) == hd 0 (nth j rows0 []) + c (Z.of_nat (S j)))%Q)).
+                 (hd 0 (nth j rows0' []) == hd 0 (nth j rows0 []) + c (pm tree np (S j)))%Q)).
     { unfold rows_of in *. destruct (2 <? np)%nat eqn:E2; [|exists []; split; [reflexivity|discriminate]].
       pose proof (mapM_ok _ _ _ Hr) as F1.
-      destruct (mapM_exists (fun i => ends es2 gs (pm true np i) 1) (seq 1 (np - 1))) as [rows0' Hr'].
+      destruct (mapM_exists (fun i => ends es2 gs (pm tree np i) 1) (seq 1 (np - 1))) as [rows0' Hr'].
       { intros i Hi. apply in_seq in Hi.
         pose proof (Forall2_nth_rel _ _ _ F1 (i - 1)%nat 0%nat []) as H. rewrite seq_length in H.
         specialize (H ltac:(lia)). rewrite seq_nth in H by lia. cbv beta in H.
@@ -719,30 +733,38 @@ Section Epoch.
       pose proof (mapM_ok _ _ _ Hr') as F2.
       pose proof (Forall2_nth_rel _ _ _ F1 j 0%nat []) as H1. rewrite seq_length in H1. specialize (H1 Hj).
       pose proof (Forall2_nth_rel _ _ _ F2 j 0%nat []) as H2. rewrite seq_length in H2. specialize (H2 Hj).
-      rewrite seq_nth in H1, H2 by lia. cbv beta in H1, H2. unfold pm in H1, H2.
+      rewrite seq_nth in H1, H2 by lia. cbv beta in H1, H2.
       destruct (ends_bump c _ _ _ _ _ H1) as [l' [Hl' Rl]]. fold es2 in Hl'. rewrite H2 in Hl'. inversion Hl'; subst l'.
       pose proof (mapM_length _ _ _ H1) as L1.
       replace (1 + j)%nat with (S j) in * by lia.
       rewrite !hd_nth0. apply (Forall2_nth_rel _ _ _ Rl 0%nat 0%Q 0%Q).
       rewrite L1. destruct gs; [congruence|simpl; lia]. }
     destruct Hrows as [rows0' [Hr' Rrows]].
-    pose proof (tree_of_bump c es gs) as Tb. fold es2 in Tb. rewrite Htree in Tb.
+    pose proof (tree_of_bump c es gs) as Tb. fold es2 in Tb. fold tree in Tb.
+    assert (Hsh : forall p, (p < np)%nat ->
+              (shift_pos tree d' (if (2 <? np)%nat then rows0' else [recv']) (pos_of tree np p) ==
+               shift_pos tree d (if (2 <? np)%nat then rows0 else [recv]) (pos_of tree np p)
+               - c (Z.of_nat p) + Kof tree np)%Q).
+    { intros p Hp. rewrite <- (pm_pos tree np p Hp). pose proof (pos_lt tree np p Hp) as Hq.
+      remember (pos_of tree np p) as q eqn:Eq. clear Eq.
+      destruct q as [|[|q']]; cbn [shift_pos]; cbv zeta; unfold Kof.
+      - destruct tree; [ring|]. rewrite Rd. ring.
+      - destruct tree; [|ring]. rewrite Rd. ring.
+      - assert (E2 : (2 <? np)%nat = true) by (apply Nat.ltb_lt; lia). rewrite E2.
+        rewrite !hd_nth0 with (l := (hd [] _)).
+        assert (Hh : forall (rows : list (list Q)), nth 0 (hd [] rows) 0%Q = hd 0%Q (nth 0 rows [])).
+        { intros [|a0 ?]; simpl; [reflexivity|apply eq_sym, hd_nth0]. }
+        rewrite !Hh.
+        pose proof (Rrows E2 (S q') ltac:(lia)) as R1. pose proof (Rrows E2 0%nat ltac:(lia)) as R0.
+        clearbody tree. destruct tree; rewrite R1, R0; [rewrite Rd|]; ring. }
     eexists. split.
     - pose proof (calibrate_intro es2 np cgs rows0' send' recv' idx d' (bump c r) (y + c 0)%Q) as CI.
-      cbv zeta in CI. fold gs in CI. rewrite Tb in CI. unfold pm in CI. apply CI; auto.
-    - subst c1. unfold calib_rel. simpl. rewrite !map_length, !seq_length. repeat split; auto.
-      + intros p Hp. rewrite !nth_map_seq by lia. unfold pos_of.
-        destruct p as [|[|p']].
-        * simpl. ring.
-        * simpl. rewrite Rd. simpl. ring.
-        * assert (E2 : (2 <? np)%nat = true) by (apply Nat.ltb_lt; lia). rewrite E2.
-          cbn [shift_pos]. rewrite !hd_nth0 with (l := (hd [] _)).
-          assert (Hh : forall (rows : list (list Q)), nth 0 (hd [] rows) 0%Q = hd 0%Q (nth 0 rows [])).
-          { intros [|a ?]; simpl; [reflexivity|apply eq_sym, hd_nth0]. }
-          rewrite !Hh.
-          rewrite (Rrows E2 (S p')) by lia. rewrite (Rrows E2 0%nat) by lia. rewrite Rd.
-          replace (Z.of_nat 1) with 1 by reflexivity. ring.
-      + ring.
+      cbv zeta in CI. fold gs in CI. rewrite Tb in CI. apply CI; auto.
+    - subst c1. unfold calib_rel. cbn [c_tree c_shifts c_off].
+      rewrite !map_length, !seq_length. split; [reflexivity|]. split; [reflexivity|]. split.
+      + intros p Hp. rewrite !nth_map_seq by lia. apply Hsh. exact Hp.
+      + rewrite !nth_map_seq by lia. rewrite (Hsh 0%nat) by lia.
+        replace (Z.of_nat 0) with 0 by reflexivity. simpl. ring.
   Qed.
 End Epoch.
 
@@ -770,11 +792,11 @@ Section Epoch2.
     intros c0 e H5 Ha. unfold alter1, has_ts5 in *. destruct (e_args e) as [a|]; [|congruence]. now rewrite H5.
   Qed.
 
-  Lemma alter1_bump : forall np c1 c2 e e1,
-    calib_rel c np c1 c2 -> (has_ts5 e = true -> 0 <= e_pid e) ->
+  Lemma alter1_bump : forall np K c1 c2 e e1,
+    calib_rel c np K c1 c2 -> (has_ts5 e = true -> 0 <= e_pid e) ->
     alter1 c1 e = Ok e1 -> exists e2, alter1 c2 (bump c e) = Ok e2 /\ same_view e1 e2.
   Proof.
-    intros np c1 c2 e e1 [L1 [L2 [Rs Ro]]] Hpid H.
+    intros np K c1 c2 e e1 [L1 [L2 [Rs Ro]]] Hpid H.
     destruct (has_ts5 e) eqn:H5.
     2:{ assert (Ha : e_args e <> None) by (unfold alter1 in H; destruct (e_args e); congruence).
         rewrite (alter1_not5 c1 e H5 Ha) in H. inversion H; subst e1.
@@ -793,7 +815,7 @@ Section Epoch2.
     assert (Hs2 : shift_at (c_shifts c2) (e_pid e) = Ok (nth (Z.to_nat (e_pid e)) (c_shifts c2) 0%Q)).
     { rewrite <- (Z2Nat.id (e_pid e)) at 1 by exact Hpid. apply shift_at_nat. lia. }
     set (s2 := nth (Z.to_nat (e_pid e)) (c_shifts c2) 0%Q) in *.
-    assert (Rs2 : (s2 == s1 - c (e_pid e) + c 0)%Q).
+    assert (Rs2 : (s2 == s1 - c (e_pid e) + K)%Q).
     { unfold s2. rewrite Hs1'. rewrite (Rs (Z.to_nat (e_pid e))) by lia. rewrite Z2Nat.id by exact Hpid. reflexivity. }
     rewrite match_map_cons, Hs2. unfold bind. rewrite !nth_error_map', En. cbn [option_map].
     eexists. split; [reflexivity|].
@@ -805,16 +827,16 @@ Section Epoch2.
       clear -Rs2 Ro. induction dr; simpl; constructor; auto. rewrite Rs2, Ro. ring.
   Qed.
 
-  Lemma mapM_alter_bump : forall np c1 c2 es es1,
-    calib_rel c np c1 c2 -> (forall e, In e es -> has_ts5 e = true -> 0 <= e_pid e) ->
+  Lemma mapM_alter_bump : forall np K c1 c2 es es1,
+    calib_rel c np K c1 c2 -> (forall e, In e es -> has_ts5 e = true -> 0 <= e_pid e) ->
     mapM (alter1 c1) es = Ok es1 ->
     exists es2, mapM (alter1 c2) (map (bump c) es) = Ok es2 /\ Forall2 same_view es1 es2.
   Proof.
-    intros np c1 c2 es. induction es as [|e r IH]; intros es1 HR Hp H; simpl in *.
+    intros np K c1 c2 es. induction es as [|e r IH]; intros es1 HR Hp H; simpl in *.
     - inversion H. exists []. auto.
     - apply bind_ok in H. destruct H as [e1 [He1 H]]. apply bind_ok in H. destruct H as [r1 [Hr1 H]].
       inversion H; subst.
-      destruct (alter1_bump np c1 c2 e e1 HR (Hp e (or_introl eq_refl)) He1) as [e2 [He2 V]].
+      destruct (alter1_bump np K c1 c2 e e1 HR (Hp e (or_introl eq_refl)) He1) as [e2 [He2 V]].
       destruct (IH r1 HR (fun x Hx => Hp x (or_intror Hx)) Hr1) as [r2 [Hr2 Vs]].
       exists (e2 :: r2). rewrite He2. simpl. rewrite Hr2. simpl. auto.
   Qed.
@@ -831,11 +853,11 @@ Section Epoch2.
   Proof. intros. unfold active. destruct (gather_all_bump c es) as [H1 H2]. now rewrite H1, H2. Qed.
 
   Theorem epoch_blind : forall es out,
-    mp_run es = Ok out -> tree_es es = true ->
+    mp_run es = Ok out ->
     (forall e, In e es -> has_ts5 e = true -> 0 <= e_pid e) ->
     exists out2, mp_run (map (bump c) es) = Ok out2 /\ Forall2 same_view out out2.
   Proof.
-    intros es out H Ht Hp. unfold mp_run, drain in *. rewrite active_bump.
+    intros es out H Hp. unfold mp_run, drain in *. rewrite active_bump.
     destruct (active (gather_all es)) eqn:Ha.
     - apply bind_ok in H. destruct H as [c1 [Hc H]]. apply bind_ok in H. destruct H as [es1 [He H]].
       inversion H; subst out; clear H.
@@ -843,20 +865,17 @@ Section Epoch2.
       destruct (gather_all_bump c es) as [G1 G2]. rewrite G1, G2.
       unfold active in Ha. apply andb_true_iff in Ha. destruct Ha as [Hg Hnp].
       apply negb_true_iff, is_nil_false in Hg. apply Nat.ltb_lt in Hnp.
-      assert (Htree : c_tree c1 = true).
-      { pose proof (calibrate_inv _ _ _ _ Hc) as I.
-        destruct I as [? [? [? [? [? [? [? [_ [_ [_ [_ [_ I]]]]]]]]]]]]. subst c1. exact Ht. }
       assert (Hnp2 : (2 <= List.length (proc_ids (gather_all es)))%nat) by lia.
-      destruct (calibrate_bump c _ _ _ _ Hg Hnp2 Hc Htree) as [c2 [Hc2 HR]].
+      destruct (calibrate_bump c _ _ _ _ Hg Hnp2 Hc) as [c2 [Hc2 HR]].
       rewrite Hc2. simpl.
-      destruct (mapM_alter_bump _ _ _ _ _ HR Hp He) as [es2 [He2 V]].
+      destruct (mapM_alter_bump _ _ _ _ _ _ HR Hp He) as [es2 [He2 V]].
       rewrite He2. simpl. eexists. split; [reflexivity|]. now apply emit_same_view.
     - inversion H; subst out. rewrite !all_events_gather_all. eexists. split; [reflexivity|].
       apply emit_same_view. clear. induction es; simpl; constructor; auto. apply bump_same_view.
   Qed.
 End Epoch2.
 
-(* ================================================================ the reversed (chain) branch depends on epochs *)
+(* ================================================================ concrete instances of both branches *)
 Fixpoint ts_eqb_list (l m : list ev) : bool :=
   match l, m with
   | [], [] => true
@@ -886,18 +905,17 @@ Definition wit_tree : list ev :=
    mkev 4 true 2 "HostFn" 5%Q 2%Q (Some (mkargs None false None None))].
 Definition wit_c (p : Z) : Q := if p =? 1 then 1%Q else 0%Q.
 
-Lemma reversed_branch_refuted :
-  exists (c : Z -> Q) (es out out2 : list ev),
-    tree_es es = false /\ (forall e, In e es -> has_ts5 e = true -> 0 <= e_pid e) /\
-    mp_run es = Ok out /\ mp_run (map (bump c) es) = Ok out2 /\ ~ Forall2 same_view out out2.
+(* the chain (reversed) branch, three ranks, rank 1's counters offset by 1: the same export (was refuted before the
+   reference offset took rank 0's own shift into account, /repo fix "C07") *)
+Lemma chain_witness_blind :
+  tree_es wit_chain = false /\
+  exists out out2, mp_run wit_chain = Ok out /\ mp_run (map (bump wit_c) wit_chain) = Ok out2 /\
+                   ts_eqb_list out out2 = true /\ List.length out = 3%nat.
 Proof.
-  exists wit_c, wit_chain.
+  split; [vm_compute; reflexivity|].
   destruct (mp_run wit_chain) as [out|] eqn:E1; [|vm_compute in E1; discriminate].
   destruct (mp_run (map (bump wit_c) wit_chain)) as [out2|] eqn:E2; [|vm_compute in E2; discriminate].
-  exists out, out2. split; [vm_compute; reflexivity|]. split.
-  { intros e He _. simpl in He. destruct He as [<-|[<-|[<-|[]]]]; simpl; lia. }
-  split; [reflexivity|]. split; [reflexivity|].
-  intros H. apply same_view_ts_eqb in H.
+  exists out, out2. split; [reflexivity|]. split; [reflexivity|].
   vm_compute in E1. vm_compute in E2. inversion E1; subst out. inversion E2; subst out2.
-  vm_compute in H. discriminate.
+  split; vm_compute; reflexivity.
 Qed.
